@@ -111,9 +111,21 @@ def _replay_rels(model, rec):
         return {"confirmed": True, "witness_class": "rels-reuse", "detail": "get_or_add sequence gave %s" % [r1, r2, r3, r4, e1, e2, e3]}
     if r[r1].target_part is not a or r[r2].target_part is not b or r[e1].target_ref != "http://x/" or not r[e1].is_external or r[r1].is_external:
         return {"confirmed": True, "witness_class": "rels-reuse", "detail": "stored relationships have wrong targets"}
+    # a lookup by type, then a removal, then the same request again: the removed relationship must not be found any more
+    r.part_with_reltype("t2")
+    r.pop(r3)
+    r3b = r.get_or_add("t2", a)
+    if r3b not in r or r[r3b].target_part is not a or r[r3b].reltype != "t2":
+        return {"confirmed": True, "witness_class": "rels-reuse", "detail": "lookup by type, pop(%s), get_or_add of the same type and target returned %s which is %sa key" % (r3, r3b, "" if r3b in r else "not ")}
+    r.get_or_add_ext_rel("t1", "http://x/")
+    r.pop(e1)
+    e1b = r.get_or_add_ext_rel("t1", "http://x/")
+    if e1b not in r or r[e1b].target_ref != "http://x/":
+        return {"confirmed": True, "witness_class": "rels-reuse", "detail": "pop(%s) then get_or_add_ext_rel of the same URL returned %s which is not a key" % (e1, e1b)}
+    e1 = e1b
     r.pop(r2)
     r5 = r.get_or_add("t9", b)
-    if r5 != r2 or set(r) != {r1, r3, e1, e3, r5}:
+    if r5 != r2 or set(r) != {r1, r3b, e1, e3, r5}:
         return {"confirmed": True, "witness_class": "rels-reuse", "detail": "after pop, get_or_add gave %s keys %s" % (r5, sorted(r))}
     return {"confirmed": False, "detail": "get_or_add / get_or_add_ext_rel reuse and add as documented"}
 
@@ -1029,6 +1041,24 @@ def _native_histories(tier="quick", seed=0):
         if rnd.random() < 0.5:
             sh.click_action.hyperlink.address = None
 
+    def op_relink(prs, rnd):
+        """set, read something that looks relationships up by type, clear, set the same target again"""
+        s = last(prs, rnd)
+        tb = s.shapes.add_textbox(0, 0, 10, 10)
+        r = tb.text_frame.paragraphs[0].add_run()
+        r.text = "again"
+        sh = s.shapes.add_shape(MSO_SHAPE.OVAL, 0, 0, 10, 10)
+        other = last(prs, rnd)
+        r.hyperlink.address = "http://again/"
+        sh.click_action.target_slide = other
+        _ = s.slide_layout, s.has_notes_slide
+        r.hyperlink.address = None
+        sh.click_action.target_slide = None
+        r.hyperlink.address = "http://again/"
+        sh.click_action.target_slide = other
+        if r.hyperlink.address != "http://again/" or sh.click_action.target_slide is not other:
+            raise AssertionError("hyperlink / slide jump set again after clearing reads back %r / %r" % (r.hyperlink.address, sh.click_action.target_slide))
+
     def op_jump(prs, rnd):
         s = last(prs, rnd)
         sh = s.shapes.add_shape(MSO_SHAPE.OVAL, 0, 0, 10, 10)
@@ -1058,7 +1088,7 @@ def _native_histories(tier="quick", seed=0):
     def op_read(prs, rnd):
         _deck_summary(prs)
 
-    ops = [op_slide, op_shape, op_picture, op_movie, op_chart, op_replace, op_ole, op_notes, op_link, op_jump, op_layout_remove, op_rejected, op_core, op_read]
+    ops = [op_slide, op_shape, op_picture, op_movie, op_chart, op_replace, op_ole, op_notes, op_link, op_relink, op_jump, op_layout_remove, op_rejected, op_core, op_read]
 
     def out_of_order_deck():
         import re
@@ -1123,7 +1153,7 @@ def _native_histories(tier="quick", seed=0):
         rec("C02.native.histories[%s]" % label, bad)
     return {"contract": "C02.native_histories", "prop": "C02", "status": "ok", "obligations": obls, "paths": 0, "assumed": [], "functions": {},
             "notes": [], "solver_s": 0.0, "wall_s": _t.time() - t0,
-            "bounded": {"name": "C02.native_histories", "bound": "%d random histories of %d operations over 14 operation kinds, from the default template and from a deck with slide parts named 7,3,9; "
+            "bounded": {"name": "C02.native_histories", "bound": "%d random histories of %d operations over 15 operation kinds, from the default template and from a deck with slide parts named 7,3,9; "
                         "a third of the histories save (and inspect, re-open, compare) after every step, the rest at the end" % (2 * N, L),
                         "evaluations": evals[0], "samples": [], "counted_as_proved": False}}
 
